@@ -21,6 +21,25 @@ PROPS = {
         "technique": "exhaustive enumeration of a deviation-bounded parameter table on the implementation with a resource-usage oracle (deterministic allocation counts + CPU budget)",
         "assumptions": ["boundedness is judged by a fixed budget on two screen sizes, not by fitting a polynomial"],
     },
+    "C05": {
+        "bin": "px_binfmt", "budget_ms": 30000, "wall_cap": {"quick": 120, "thorough": 2400},
+        "rule": "per format (xb, bin, adf, idf, tnd): dimension menus combined with <=2 (thorough 3) deviations from a base document (XBin: 7 widths x 6 heights x 7 font set-ups x palette x blink/ice x compression), "
+                "pair sweeps in which every (character, attribute byte) pair occurs, all rows of width <=3 over an 8-cell alphabet; each document saved by the real writer, loaded by the real loader and compared cell by cell, "
+                "and the saved bytes decoded by independent decoders written from the specification files (XBin, BIN, ADF, IDF); re-save stability over every truncation / header corruption / 16-bit field extreme of 14 seed files",
+        "level_text": "every document of the stated small scope is round-tripped through the real writers and loaders and cross-checked against spec-derived reference decoders; every faulted seed file that a loader accepts is re-saved and re-loaded",
+        "level_note": "Unlimited colour mode is outside the domain (no binary format can return it); blinking cells only in blink-mode buffers and backgrounds 8..15 only in ice buffers; BIN only with SAUCE, ADF only width 80, Tundra/IDF/ADF only ice",
+        "technique": "small-scope exhaustive input enumeration with a round-trip oracle and an independent reference decoder (model) whose output is compared with the implementation on every case",
+        "assumptions": ["reference decoders were written from doc/FileFormats (x_bin.htm, ArtworxDataFormat.txt, idv_103.pas)"],
+    },
+    "C06": {
+        "bin": "px_binfmt", "budget_ms": 30000, "wall_cap": {"quick": 120, "thorough": 2400},
+        "rule": "all rows of width 1..=5 (thorough 6) over 3 chars x 3 attributes x 2 font pages, all rows of width 6..=7 (thorough 9) over a 2x2x2 alphabet, rows of width 60..=70 and 124..=135 that are concatenations of <=3 runs of 4 kinds at every "
+                "listed split point (both sides of the 64-cell limit), identical adjacent rows; each row saved compressed and uncompressed by the real writer, both loaded by the real loader, the compressed stream decoded by a decoder written from x_bin.htm",
+        "level_text": "every row of the stated alphabets and widths is encoded by the real compressor; both encodings are decoded by the real loader and the compressed stream by an independent spec decoder",
+        "level_note": "rows are batched 190 per buffer plus a sentinel row that keeps both font pages in use; the statement's random buffers are replaced by the structured long-row family",
+        "technique": "exhaustive enumeration of all inputs up to a size bound against an independent reference decoder and a differential (compressed vs uncompressed) oracle",
+        "assumptions": [],
+    },
     "C09": {
         "bin": "px_stream", "budget_ms": 1500, "wall_cap": {"quick": 100, "thorough": 2400},
         "rule": "same explorer as C01 minus text-area resize tokens, plus every token pair repeated until 3*H line changes happened (deterministic replacement of the random scrollback-filling streams); "
@@ -85,6 +104,8 @@ PROPS = {
 HOOK_COMMITS = ["81babd1"]
 
 ENGINES = [
+    {"name": "px_binfmt", "path": "harness/src/bin/px_binfmt.rs", "serves_properties": ["C05", "C06"],
+     "kind_free_text": "binary art format round trips with spec-derived reference decoders, XBin row enumeration, re-save stability over faulted files"},
     {"name": "px_palette", "path": "harness/src/bin/px_palette.rs", "serves_properties": ["C16"],
      "kind_free_text": "palette history explorer (direct and through the ANSI parser), palette file round trips, 6-bit idempotence"},
     {"name": "px_unicode", "path": "harness/src/bin/px_unicode.rs", "serves_properties": ["C10"],
